@@ -81,6 +81,10 @@ def e2e(rng, ident):
     ctx_tags = small_map(rng) if rng.chance(2, 3) else None
     if ctx_tags is not None and not ctx_tags[1]:
         ctx_tags = None if rng.chance(1, 2) else ctx_tags
+    if ctx_tags is not None and rng.chance(1, 3):
+        # the context already carries a tag under a NAME the tag-extraction function also produces (a forwarded call): the
+        # selected value replaces it, as the model's merge says
+        ctx_tags = ("m", ctx_tags[1] + [(("s", rng.choice([b"t1", b"t2"])), rng.choice([9, ("s", b"old")]))])
     tagsfunc = rng.chance(2, 3)
     # context values under keys K1,K2; the tag function maps K1->"t1", K2->"t2", K3->"t3" (K3 has no value)
     vals = {}
